@@ -253,7 +253,7 @@ type WorkerResult struct {
 	Extra        map[string]int64  `json:"extra"`
 	KnownHits    map[string]int    `json:"known_hits"`
 	OracleEvals  int64             `json:"oracle_evals"`
-	SimSpanNs    int64             `json:"sim_span_ns"`
+	SimSpanNs    float64           `json:"sim_span_ns"`
 	Steps        int64             `json:"steps"`
 	Switches     int64             `json:"switches"`
 	Samples      []json.RawMessage `json:"samples"`
@@ -481,7 +481,8 @@ func main() {
 	ops, faults, probes, known := map[string]int{}, map[string]int{}, map[string]int{}, map[string]int{}
 	extra := map[string]int64{}
 	var runs int
-	var evals, span, steps, switches int64
+	var evals, steps, switches int64
+	var span float64
 	var samples []json.RawMessage
 	var viol *ReplayFile
 	for _, r := range results {
